@@ -157,24 +157,22 @@ func (s SimpleInMemoryStore) EstimateFactCount() int {
 
 // Add implements the FactStore interface by adding the fact to the backing map.
 func (s SimpleInMemoryStore) Add(a ast.Atom) bool {
-	key := a.Hash()
 	if atoms, ok := s.shardsByPredicate[a.Predicate]; ok {
-		_, ok := atoms[key]
-		if !ok {
+		key, found := atomSlot(atoms, a)
+		if !found {
 			atoms[key] = a
 		}
-		return !ok
+		return !found
 	}
-	s.shardsByPredicate[a.Predicate] = map[uint64]ast.Atom{key: a}
+	s.shardsByPredicate[a.Predicate] = map[uint64]ast.Atom{a.Hash(): a}
 	return true
 }
 
 // Remove removes the fact from the backing map.
 func (s SimpleInMemoryStore) Remove(a ast.Atom) bool {
-	key := a.Hash()
 	if atoms, ok := s.shardsByPredicate[a.Predicate]; ok {
-		if _, ok := atoms[key]; ok {
-			delete(atoms, key)
+		if key, found := atomSlot(atoms, a); found {
+			removeAtomSlot(atoms, key)
 			if len(atoms) == 0 {
 				delete(s.shardsByPredicate, a.Predicate)
 			}
@@ -186,10 +184,9 @@ func (s SimpleInMemoryStore) Remove(a ast.Atom) bool {
 
 // Contains returns true if this store contains this atom already.
 func (s SimpleInMemoryStore) Contains(a ast.Atom) bool {
-	key := a.Hash()
 	if atoms, ok := s.shardsByPredicate[a.Predicate]; ok {
-		_, ok := atoms[key]
-		return ok
+		_, found := atomSlot(atoms, a)
+		return found
 	}
 	return false
 }
@@ -389,6 +386,67 @@ func Matches(pattern []ast.BaseTerm, args []ast.BaseTerm) bool {
 	return true
 }
 
+// The in-memory stores keep atoms in maps keyed by the atom's hash code. Two
+// different atoms can have the same hash code, so a key identifies a slot,
+// not an atom: when the slot for an atom's hash is taken by a different atom,
+// the following keys are probed. atomSlot and removeAtomSlot implement this
+// for maps holding atoms, atomPtrSlot and removeAtomPtrSlot for maps holding
+// pointers to atoms.
+
+// atomSlot returns the key under which a is stored in m, or, if it is not
+// stored, the key under which it would be stored.
+func atomSlot(m map[uint64]ast.Atom, a ast.Atom) (uint64, bool) {
+	for key := a.Hash(); ; key++ {
+		existing, ok := m[key]
+		if !ok {
+			return key, false
+		}
+		if existing.Equals(a) {
+			return key, true
+		}
+	}
+}
+
+// removeAtomSlot deletes the entry at key and re-inserts the run of entries
+// that follows it, which may have been placed there by probing.
+func removeAtomSlot(m map[uint64]ast.Atom, key uint64) {
+	delete(m, key)
+	for k := key + 1; ; k++ {
+		a, ok := m[k]
+		if !ok {
+			return
+		}
+		delete(m, k)
+		slot, _ := atomSlot(m, a)
+		m[slot] = a
+	}
+}
+
+func atomPtrSlot(m map[uint64]*ast.Atom, a ast.Atom) (uint64, bool) {
+	for key := a.Hash(); ; key++ {
+		existing, ok := m[key]
+		if !ok {
+			return key, false
+		}
+		if existing.Equals(a) {
+			return key, true
+		}
+	}
+}
+
+func removeAtomPtrSlot(m map[uint64]*ast.Atom, key uint64) {
+	delete(m, key)
+	for k := key + 1; ; k++ {
+		a, ok := m[k]
+		if !ok {
+			return
+		}
+		delete(m, k)
+		slot, _ := atomPtrSlot(m, *a)
+		m[slot] = a
+	}
+}
+
 // IndexedInMemoryStore provides a simple implementation backed by a three-level map.
 // For each predicate sym, we have a separate map, using hash of the first argument and then
 // hash of the entire atom.
@@ -455,13 +513,12 @@ func (s IndexedInMemoryStore) Add(a ast.Atom) bool {
 		s.shardsByPredicate[a.Predicate] = shard
 		return true
 	}
-	key := a.Hash()
 	atoms, ok := shard[h]
 	if !ok {
 		shard[h] = map[uint64]ast.Atom{a.Hash(): a}
 		return true
 	}
-	if _, ok := atoms[key]; !ok {
+	if key, found := atomSlot(atoms, a); !found {
 		atoms[key] = a
 		return true
 	}
@@ -482,13 +539,12 @@ func (s IndexedInMemoryStore) Remove(a ast.Atom) bool {
 	if !ok {
 		return false
 	}
-	key := a.Hash()
 	atoms, ok := shard[h]
 	if !ok {
 		return false
 	}
-	if _, ok := atoms[key]; ok {
-		delete(atoms, key)
+	if key, found := atomSlot(atoms, a); found {
+		removeAtomSlot(atoms, key)
 		return true
 	}
 	return false
@@ -509,7 +565,7 @@ func (s IndexedInMemoryStore) Contains(a ast.Atom) bool {
 	if !ok {
 		return false
 	}
-	_, exists := atoms[a.Hash()]
+	_, exists := atomSlot(atoms, a)
 	return exists
 }
 
@@ -632,8 +688,8 @@ func (s MultiIndexedInMemoryStore) Add(a ast.Atom) bool {
 		if !ok {
 			params[iHash] = map[uint64]*ast.Atom{aHash: &a}
 			added = true
-		} else if _, ok := atoms[aHash]; !ok {
-			atoms[aHash] = &a
+		} else if key, found := atomPtrSlot(atoms, a); !found {
+			atoms[key] = &a
 			added = true
 		}
 	}
@@ -649,7 +705,6 @@ func (s MultiIndexedInMemoryStore) Remove(a ast.Atom) bool {
 		}
 		return false
 	}
-	aHash := a.Hash()
 	shard, ok := s.shardsByPredicate[a.Predicate]
 	if !ok {
 		return false
@@ -665,8 +720,8 @@ func (s MultiIndexedInMemoryStore) Remove(a ast.Atom) bool {
 		if !ok {
 			return false
 		}
-		if _, ok := atoms[aHash]; ok {
-			delete(atoms, aHash)
+		if key, found := atomPtrSlot(atoms, a); found {
+			removeAtomPtrSlot(atoms, key)
 			removed = true
 		}
 	}
@@ -692,7 +747,7 @@ func (s MultiIndexedInMemoryStore) Contains(a ast.Atom) bool {
 	if !ok {
 		return false
 	}
-	_, exists := atoms[a.Hash()]
+	_, exists := atomPtrSlot(atoms, a)
 	return exists
 }
 
